@@ -294,7 +294,7 @@ def check_widths(st, obs, proj):
 def check_case(st, widths=False):
     tree, plan, res = st['tree'], st['plan'], st['res']
     obs = frames.execute(tree, plan)
-    case = dict(tree=tree, plan=plan, text=repr(obs['spec']))
+    case = dict(tree=tree, plan=plan, text=repr(obs['spec']), res=res)
     if obs['out'] != 'err':
         return 'the call succeeded, expected an error', case, None
     e = obs['error']
@@ -365,6 +365,42 @@ def match_finding(f, case):
     if m.get('kind') == 'root_error_from_kind':
         return case.get('root_kind') == m['node_kind']
     return False
+
+
+
+
+def replay(path):
+    """re-run one stored case (bin/check C05 --replay <file>) against the library as it is now"""
+    import json
+    blob = json.load(open(path))
+    st = _state_of(blob['case'])
+    if st is None:
+        print('REPLAY property=C05: %s holds a recorded observation, not a case of the enumerated universe; it was rejected with: %s'
+              % (path, str(blob.get('why'))[:300]))
+        print('(the file alone does not allow the case to be re-executed: re-run bin/check C05 to observe the library again)')
+        return 2
+    out = _replay_states([st])
+    if out['bad']:
+        print('VIOLATION property=C05 replay=%s' % path)
+        print('  why: %s' % (str(out['bad'][0]['why'])[:400],))
+        return 1
+    print('REPLAY property=C05: the stored case agrees with the specification now (%s)' % path)
+    return 0
+
+
+def _state_of(case):
+    if all(k in case for k in ('tree', 'plan', 'res')):
+        return dict(tree=case['tree'], plan=case['plan'], res=case['res'], phase=1)
+    return None
+
+
+def _replay_states(states):
+    out = dict(n=0, bad=[])
+    for st in states:
+        why, case, _ = check_case(st, widths=True)       # (with every variant of the sampled cases)
+        if why:
+            out['bad'].append(dict(why='%s in %s plan %s' % (why, case['text'], st['plan']), case=case))
+    return out
 
 
 def worker(states):
